@@ -523,6 +523,9 @@ class World:
                     return obs
             elif kind == "drain":
                 pass
+            elif kind == "topic":
+                # MQTT only: a raw topic as the broker client hands it over (any number of levels)
+                self.gw.tasks.transport.recv(ev[1], ev[2], ev[3])
             elif kind == "rx2":
                 self.cur_cause = ("rx", ev[1])
                 self.deliver(ev[1])
